@@ -102,8 +102,11 @@ func zzC19bSelect() {
 	id := transport.TransportID(vf.Str("event.id"))
 	member := id == "a" || id == "b"
 	vf.Known("KF-C19-scheduler-id-not-a-member-stored", !member)
-	sub.ch <- id
-	vf.Settle()
+	// the same event may arrive several times (a flapping link keeps announcing the same id)
+	for i, n := 0, 1+vf.Choose("event.repeats", 3); i < n; i++ {
+		sub.ch <- id
+		vf.Settle()
+	}
 	panicked := zzUse(m)
 	vf.Assert("scheduler-event-never-crashes", !panicked)
 	if !panicked {
